@@ -5,6 +5,7 @@ CONSTANTS
   Clusters = {"c1", "c2"}
   HFronts = {"f1", "f3"}
   TFronts = {"t1", "t2"}
+  UFronts = {}
   Backends = {"b1"}
   Verbs <- VerbsCore
   MaxReq = 4
